@@ -81,15 +81,16 @@ def coq_witnesses(chk):
                 'Eval vm_compute in (match cex_any %s_class with Some (t, s) => status_result %s_class t s | None => None end).\n' % (n, n, n))
     # every failing (target, state) pair of the exhaustive search must be explained by the root cause of a known
     # finding: a flag that the loader only ever SETS (no else-branch in the regenerated reader facts) is on in
-    # the target and off in the dumped state.  Pairs not explained that way are listed (first 5).
+    # the target and off in the dumped state.  Pairs not explained that way are listed (first 5).  Targets searched: no flag, every single flag, all flags
+    # (the DECIDED theorems themselves quantify over all targets).
     expl = {"ph": "negb (N.land t 1 =? 0) && (N.land s 1 =? 0)", "grid": "negb (N.land t 1 =? 0) && (N.land s 1 =? 0)",
             "bds": "negb (N.land t 1 =? 0) && (N.land s 1 =? 0)", "og": "negb (N.land t 1 =? 0) && (N.land s 1 =? 0)",
             "box": "negb (N.land (N.land t (N.lxor s 7)) 3 =? 0)"}
     for n in names:
         src += 'Goal True. idtac "@@@ unexplained %s". exact I. Qed.\n' % n
         src += ('Eval vm_compute in (firstn 5 (filter (fun p => let t := fst p in let s := snd p in '
-                'negb (rt_ok %s_class t s) && negb (%s)) (list_prod (states (sc_nbits %s_class)) (states (sc_nbits %s_class))))).\n'
-                % (n, expl[n], n, n))
+                'negb (rt_ok %s_class t s) && negb (%s)) (list_prod (0 :: N.ones (N.of_nat (sc_nbits %s_class)) :: map (fun i => N.shiftl 1 (N.of_nat i)) (seq 0 (sc_nbits %s_class))) '
+                '(states (sc_nbits %s_class))))).\n' % (n, expl[n], n, n, n))
     src += 'Goal True. idtac "@@@ boxfresh". exact I. Qed.\nEval vm_compute in (cex_from box_class box_fresh_object_status).\n'
     src += ('Goal True. idtac "@@@ boxfreshres". exact I. Qed.\nEval vm_compute in (match cex_from box_class box_fresh_object_status '
             'with Some s => status_result box_class box_fresh_object_status s | None => None end).\n')
